@@ -1,6 +1,7 @@
 package core
 
 import (
+	"time"
 	"bytes"
 	"encoding/binary"
 	"fmt"
@@ -681,6 +682,52 @@ func (w *W) latestCons(ci int, clientID string) uint64 {
 		return 0
 	}
 	return cs.(*ibctm.ClientState).LatestHeight.RevisionHeight
+}
+
+// latestConsTime is the timestamp (ns) of the consensus state at the client's latest height.
+func (w *W) latestConsTime(ci int, clientID string) uint64 {
+	ctx := w.ch[ci].GetContext()
+	k := w.ch[ci].App.GetIBCKeeper().ClientKeeper
+	cs, ok := k.GetClientState(ctx, clientID)
+	if !ok {
+		return 0
+	}
+	cons, ok := k.GetClientConsensusState(ctx, clientID, cs.(*ibctm.ClientState).LatestHeight)
+	if !ok {
+		return 0
+	}
+	return uint64(cons.(*ibctm.ConsensusState).Timestamp.UnixNano())
+}
+
+// directAt is direct with the block time of the executing context set to bt (a chain whose clock is behind the
+// counterparty's clock as its light client knows it): the step is recorded with that time.
+func (w *W) directAt(ci int, op map[string]any, bt uint64, f func(ctx sdk.Context) error) string {
+	h, _ := w.begin(ci)
+	start := len(w.cbs)
+	w.curStart = start
+	c := w.ch[ci]
+	ctx := c.GetContext().WithBlockTime(time.Unix(0, int64(bt)).UTC())
+	cctx, write := ctx.CacheContext()
+	out := "ok"
+	errlog := ""
+	panicked, _ := hx.Catch(func() {
+		if err := f(cctx); err != nil {
+			out = "err"
+			errlog = err.Error()
+		} else {
+			write()
+		}
+	})
+	if panicked {
+		out = "panic"
+	}
+	c.NextBlock()
+	w.coord.IncrementTime()
+	w.record(ci, h, bt, op, out, start)
+	if errlog != "" {
+		w.steps[len(w.steps)-1]["log"] = errlog
+	}
+	return out
 }
 
 // ---------------------------------------------------------------------------------------------
